@@ -381,10 +381,24 @@ func runC06(r *Run, p *Prog) {
 	})
 	// ---- Q9
 	r.Guard("Q9", func() {
-		punct := func(f *ssa.Function, what string, chars ...int) {
+		punct := func(f *ssa.Function, node *ssa.Alloc, what string, chars ...int) {
 			for _, rv := range returnedValues(f, 0) {
 				if T.T(rv.Val) == "nil" {
 					continue
+				}
+				// (when the reader is part of a function that reads other forms too, only the returns of this node)
+				if node != nil {
+					is := rv.Val == ssa.Value(node)
+					if ph, ok := rv.Val.(*ssa.Phi); ok {
+						for _, e := range ph.Edges {
+							if e == ssa.Value(node) {
+								is = true
+							}
+						}
+					}
+					if !is {
+						continue
+					}
 				}
 				if f.Signature.Results().Len() == 2 {
 					// only success returns
@@ -411,10 +425,11 @@ func runC06(r *Run, p *Prog) {
 			}
 		}
 		var structReader, methodReader *ssa.Function
+		var structNode *ssa.Alloc
 		for _, tn := range m.typeNodes() {
 			for _, ka := range tn.Kinds {
 				if m.kindName[ka.K] == "TypeStruct" {
-					structReader = tn.Fn
+					structReader, structNode = tn.Fn, tn.Alloc
 				}
 			}
 		}
@@ -429,8 +444,8 @@ func runC06(r *Run, p *Prog) {
 			r.Unresolved("Q9", "struct reader / method reader")
 			return
 		}
-		punct(structReader, "the struct/enum reader", '(', ')')
-		punct(methodReader, "the method reader", '-', '>')
+		punct(structReader, structNode, "the struct/enum reader", '(', ')')
+		punct(methodReader, nil, "the method reader", '-', '>')
 		// the two arrow bytes are consecutive reads
 		// (after '-' is consumed, the next cursor event is the read that is compared with '>': nothing is read, skipped
 		// or stepped back in between - whether the two reads are written side by side or as two `expect` calls)
